@@ -369,6 +369,61 @@ def extract_tr(docs_tel, docs_save, notes):
     return g
 
 
+def unwrap(s):
+    if isinstance(s, tuple):
+        if s and s[0] == "construct" and len(s) == 3:
+            return unwrap(s[2])
+        return tuple(unwrap(x) for x in s)
+    if isinstance(s, list):
+        return [unwrap(x) for x in s]
+    return s
+
+
+def extract_reg(docs, g, notes):
+    """getThreadTraceList (find-or-create under the lock), the thread_local cache and the entry points that fill it"""
+    g.update({"tr_registry": "RegOther", "tr_reg_lock_first": False, "tr_tls_cache": False})
+    MAP = ("mem", "threadTrace", "this")
+    ID = ("ref", "id", "ParmVarDecl")
+    tls = init_ok = False
+    entry = {}
+    for d in docs:
+        k, nm = d.get("kind"), d.get("name")
+        if k == "VarDecl" and nm == "threadEventList" and d.get("tls") and d.get("storageClass") == "static":
+            tls = True
+        b = unwrap(flat(body_of(d))) if k in ("CXXMethodDecl", "FunctionDecl") and body_of(d) is not None else None
+        if b is None:
+            continue
+        if k == "CXXMethodDecl" and nm == "getThreadTraceList":
+            g["tr_reg_lock_first"] = bool(b) and b[0][0] == "decl" and "lock_guard" in b[0][2] and b[0][3] is not None \
+                and ("mem", "threadTraceMutex", "this") in (b[0][3], b[0][3][2:3] and b[0][3][2])
+            rest = b[1:] if g["tr_reg_lock_first"] else [s for s in b if not (s[0] == "decl" and "lock_guard" in s[2])]
+
+            def fresh_store(ss):
+                """[decl v = make_shared; threadTrace[id] = v; return v] -> True"""
+                return len(ss) == 3 and ss[0][0] == "decl" and ss[0][3] == ("call", "make_shared") \
+                    and ss[1] == ("expr", ("op", "operator=", ("op", "operator[]", MAP, ID), ("ref", ss[0][1], "VarDecl"))) \
+                    and ss[2] == ("ret", ("ref", ss[0][1], "VarDecl"))
+            if len(rest) == 3 and rest[0][0] == "decl" and rest[0][3] == ("mcall", "find", MAP, ID) and rest[1][0] == "if" and rest[1][3] is None:
+                f = ("ref", rest[0][1], "VarDecl")
+                if rest[1][1] == ("op", "operator==", f, ("mcall", "end", MAP)) and fresh_store(flat(rest[1][2])) \
+                        and rest[2] == ("ret", ("mem", "second", ("op", "operator->", f))):
+                    g["tr_registry"] = "RegFindOrCreate"
+            elif fresh_store(rest) or fresh_store([s for s in b if not (s[0] == "decl" and "lock_guard" in s[2])]):
+                g["tr_registry"] = "RegStoreAlways"
+            if g["tr_registry"] == "RegOther":
+                notes.append("getThreadTraceList: not recognised: %r" % (b,))
+        if k == "FunctionDecl" and nm == "initThreadEventList":
+            TL = ("ref", "threadEventList", "VarDecl")
+            init_ok = len(b) == 1 and b[0][0] == "if" and b[0][3] is None \
+                and b[0][1] in (("un", "!", "pre", ("mcall", "operator bool", TL)), ("un", "!", "pre", TL), ("op", "operator==", TL, "nullptr")) \
+                and flat(b[0][2]) == [("expr", ("op", "operator=", TL, ("mcall", "getThreadTraceList", ("op", "operator->", ("ref", "traceRecorder", "VarDecl")), ("call", "get_id"))))]
+        if k == "FunctionDecl" and nm in ("beginEvent", "setMarker", "setCounter", "setThreadName"):
+            entry[nm] = bool(b) and b[0] == ("expr", ("call", "initThreadEventList"))
+    g["tr_tls_cache"] = tls and init_ok and len(entry) == 4 and all(entry.values())
+    if not g["tr_tls_cache"]:
+        notes.append("thread_local cache: tls=%s init=%s entry points %r" % (tls, init_ok, entry))
+
+
 # ------------------------------------------------------------------ output
 def cb(b):
     return "true" if b else "false"
@@ -392,11 +447,11 @@ def coq_text(img, fm, tr):
                 fid, codes(f["magic"].encode()), codes(f["scale"].encode()), f["csize"], f["ncomp"], f["pixcomp"], cb(f["flip"]),
                 f["magic"], f["csize"], f["pixel_t"]))
     L.append("  end.\n")
-    L.append("Definition gen_tr : trfacts :=\n  mkTr %d %s %s %d %s %s %s %d %d %d %s %s %s %s %s %s %d %s." % (
+    L.append("Definition gen_tr : trfacts :=\n  mkTr %d %s %s %d %s %s %s %d %d %d %s %s %s %s %s %s %d %s\n       %s %s %s." % (
         tr["tr_chunk"], tr["tr_cmp"], cb(tr["tr_empty_or"]), tr["tr_reserve"], cb(tr["tr_returns_back"]), cb(tr["tr_record_via_current"]),
         cb(tr["tr_open_first"]), tr["tr_objects"], tr["tr_objects_comma"], tr["tr_bare_close"], tr["tr_seek"], cb(tr["tr_close_last"]),
         tr["tr_stack_scope"], cb(tr["tr_push_begin"]), cb(tr["tr_stray_end_break"]), cb(tr["tr_end_top_pop"]), tr["tr_long_threshold"],
-        cb(tr["tr_tid_counter"])))
+        cb(tr["tr_tid_counter"]), tr.get("tr_registry", "RegOther"), cb(tr.get("tr_reg_lock_first")), cb(tr.get("tr_tls_cache"))))
     return "\n".join(L) + "\n"
 
 
@@ -434,9 +489,9 @@ def main(argv):
         if fid not in fm:
             notes.append("wrapper for %s not recognised" % fid)
     tr_src = '#include "rkcommon/tracing/Tracing.cpp"\n'
-    docs_tel = sxast.dump(a.repo, a.work, tr_src, "ThreadEventList", "c20_tr")
-    docs_save = sxast.dump(a.repo, a.work, tr_src, "saveLog", "c20_tr")
-    tr = extract_tr(docs_tel, docs_save, notes)
+    docs_tr = sxast.dump(a.repo, a.work, tr_src, "rkcommon::tracing::", "c20_tr")
+    tr = extract_tr(docs_tr, docs_tr, notes)
+    extract_reg(docs_tr, tr, notes)
     text = coq_text(img, fm, tr)
     if a.out:
         os.makedirs(os.path.dirname(os.path.abspath(a.out)), exist_ok=True)
